@@ -123,13 +123,14 @@ fn gen_toml(ctx: &Ctx, rng: &mut Rng, path: &str) -> String {
     toml_text(path, &lists[0], &lists[1], &lists[2])
 }
 
-pub const STALE_KINDS: [&str; 6] = [
+pub const STALE_KINDS: [&str; 7] = [
     "none",
     "foreign_report",
     "empty",
     "huge",
     "findings_looking_text",
     "binary",
+    "a_directory_with_that_name",
 ];
 
 fn stale_bytes(kind: usize, rng: &mut Rng) -> Option<Vec<u8>> {
@@ -212,8 +213,11 @@ fn gen_history(ctx: &Ctx, rng: &mut Rng, screen: &mut Screen) -> (History, CwdPl
         let t = gen_toml(ctx, rng, &spelled);
         world.put_file(&toml_path, t.into_bytes(), Fault::None);
     }
-    let stale_kind = rng.below(6);
-    if let Some(b) = stale_bytes(stale_kind, rng) {
+    let stale_kind = if rng.chance(1, 12) { 6 } else { rng.below(6) };
+    if stale_kind == 6 {
+        // the report's name is taken by a directory (with something in it)
+        world.put_file(&join(&join(&cwd, "solstat_report.md"), "2023.md"), b"old\n".to_vec(), Fault::None);
+    } else if let Some(b) = stale_bytes(stale_kind, rng) {
         world.put_file(&join(&cwd, "solstat_report.md"), b, Fault::None);
     }
     let mk_argv = |rng: &mut Rng| -> Vec<String> {
@@ -402,7 +406,7 @@ pub fn judge(h: &History) -> Judged {
             return j;
         }
         // the report must be a plain file
-        if out.world_after.is_dir(&report_path) {
+        if out.world_after.is_dir(&report_path) && !world.is_dir(&report_path) {
             j.violation = Some((
                 "report_is_not_a_file".into(),
                 format!("run #{} left a directory at {}", k, report_path),
@@ -410,7 +414,7 @@ pub fn judge(h: &History) -> Judged {
             return j;
         }
         // (ii) a successful run leaves a report
-        if out.abort.is_none() && !out.world_after.is_file(&report_path) {
+        if out.abort.is_none() && !out.world_after.is_file(&report_path) && !world.is_dir(&report_path) {
             j.violation = Some((
                 "no_report_after_success".into(),
                 format!("run #{} (argv {:?}) ended with status 0 but {} does not exist", k, step.argv, report_path),
